@@ -761,6 +761,7 @@ func (ex *Exec) applyContract(st *State, fn *types.Func, fs *FuncSpec, u *Unit, 
 	}
 	// locks the callee takes while it runs
 	for _, l := range fs.Acquires {
+		ex.W.Trusted["`acquires`: "+key+" takes (and releases) "+l+" while it runs"] = true
 		ex.lockOrderCheck(st, l, pos)
 	}
 	// locks the callee expects its caller to hold
